@@ -231,6 +231,20 @@ func discharge(obls []*Oblig, workdir string, timeoutS, retryS int, useAll bool,
 			os.WriteFile(f, []byte(script), 0o644)
 			o.SmtFile = f
 			var r solveResult
+			if o.Budget > 0 {
+				// known finding: only check that it still reproduces, with a short budget
+				r = raceSolvers(f, o.Budget, false)
+				o.Solver, o.Ms, o.Output = r.solver, r.ms, r.output
+				switch r.verdict {
+				case "unsat":
+					o.Status = "discharged"
+				case "sat":
+					o.Status = "failed"
+				default:
+					o.Status = "undischarged"
+				}
+				return
+			}
 			if !useAll {
 				// stage 1: the fastest back end alone with a short budget
 				r = runOne(solvers[0], f, 3)
